@@ -217,7 +217,7 @@ pub fn produce_all(w: &mut World, actor: &str, psbt: &Psbt, i: usize) -> (Vec<Pr
     (out, ok)
 }
 
-fn is_resource_error(e: &VmError) -> bool {
+pub fn is_resource_error(e: &VmError) -> bool {
     matches!(
         e,
         VmError::OpCount
@@ -432,6 +432,12 @@ fn probe_input(w: &mut World, actor: &str, psbt: &Psbt, i: usize) {
                 if trace.kind == vm::SpendKind::TapScript && p.wit.last().map(|c| c.len()).unwrap_or(0) >= 33 + 32 * 3 {
                     w.stats.probe("tap_leaf_depth_ge3_spent");
                 }
+            }
+            Err(e) if !sane && is_resource_error(e) => {
+                // doc/resource_limitations.md: for scripts outside the sanity rules "the satisfier
+                // logic does not guarantee to find the satisfactions" once a path exceeds a resource
+                // limit; only descriptors the library itself declares within limits are held to them
+                w.stats.probe("insane_descriptor_exceeds_resource_limit");
             }
             Err(e) => {
                 if w.mon.on("C01") {
